@@ -28,6 +28,10 @@ PROPS = {"C01": c01, "C02": c02, "C03": two_builds("C03"), "C04": two_builds("C0
          "C07": two_builds("C07"),
          "C10": lambda tier, dev: run_cs_property("C10", tier, [Campaign("C10", "plain")], assumptions=ASSUME_GENERIC, dev=dev),
          "C09": lambda tier, dev: run_cs_property("C09", tier, [Campaign("C09", "plain")], assumptions=ASSUME_GENERIC[:2] + ["variadic calls are made through libffi with arguments matching every directive; stdout/stdin/FILE sinks are memory streams"], dev=dev),
+         "C11": lambda tier, dev: run_cs_property("C11", tier, [Campaign("C11", "plain")], assumptions=ASSUME_GENERIC[:2] + ["glibc snprintf is the reference for the C standard's printf; arguments are passed identically to both through libffi"], dev=dev),
+         "C14": two_builds("C14"),
+         "C15": two_builds("C15"),
+         "C16": lambda tier, dev: run_cs_property("C16", tier, [Campaign("C16", "plain")], assumptions=ASSUME_GENERIC[:2] + ["comparators are consistent total preorders"], dev=dev),
          "C05": lambda tier, dev: run_cs_property("C05", tier, [Campaign("C05", "plain")], assumptions=ASSUME_GENERIC, dev=dev)}
 
 def external(prop, script):
